@@ -90,6 +90,12 @@ def run(tier):
         # corpus snippets may use regrouped constructs; they are compared only for statistics
         if r5["fp"] != r7["fp"]:
             check.cov["corpus_snippets_differing"] = check.cov.get("corpus_snippets_differing", 0) + 1
+    # the obligation LRValues.tla puts on grammar actions (every empty / error production whose value is read assigns $$): a stale
+    # value there puts a node of an EARLIER construct into the tree (foreign text, a node reachable twice, PHP 5 != PHP 7)
+    from . import yaccobl
+    for fam_ in ("7", "5"):
+        for sig_, rep_ in yaccobl.check_family(check, fam_):
+            check.violation(sig_, rep_)
     check.cov["traces_validated_against_impl"] = check.cov["evaluations"]
     check.sample({"direction": "spec->impl", "src": tasks[0]["src"]})
     check.assumptions += ["family marks in Syntax.tla ('both' = shared syntax with the same meaning)"]
